@@ -213,11 +213,11 @@ PROPS["C05"] = {
     "required": ["C05.c05_invariant_all_histories", "C05.c05_acknowledged_exclusive", "C05.c05_add_never_takes_recorded",
                  "C05.c05_restart_keeps_acknowledged", "C05.c05_restart_frees_unrecorded", "C05.c05_restart_pool_is_cloud",
                  "C05.c05_crash_before_write", "C05.c05_crash_after_write", "C05.c05_ack_add_recorded", "C05.c05_store_mirror",
-                 "C05.c05_kill_durable", "C05.c05_failed_readd_breaks_exclusivity"],
+                 "C05.c05_kill_durable", "C05.c05_failed_repeat_keeps_address"],
     "rule": _DW_RULE + " Plus SIGKILL runs: a writer process opens the database as the builder does and performs a seed-determined Put/Delete stream, acknowledging each write; it is killed at a random instant; the file (read with bolt directly) must equal the state after the acknowledged prefix or one more write, and the reopened store must list exactly the file.",
     "technique": "Lean 4: invariant (bound / recorded / no-share / distinct keys) proved by induction over all histories of requests, GC passes, restarts and crash points; store model with cut points; differential correspondence incl. real restarts from the bolt file and SIGKILL of a writer process",
     "level_text": "Theorems: after every history of good events the invariant holds, hence every recorded address in the pool is bound to its pod and no two records name one address; restart rebinds every recorded address the cloud still reports and frees every unrecorded one; a crash before the database write leaves no trace, after it equals restart-after-completion; an acknowledged ADD is recorded; the store's disk-then-memory order makes every cut point reopen to the acknowledged prefix or one more write. bolt's own fsync/rollback behaviour is exercised by the SIGKILL runs, not proved: partial.",
-    "level_note": "Trusted: Lean kernel; bbolt's transactional commit (validated by SIGKILL runs, process kill only - no power-loss simulation); fake cloud. The history theorem excludes the recorded finding (a failing repeat ADD releasing an acknowledged address) and the repaired defect (a failing ADD keeping what it took); both are proved to break the invariant on concrete witnesses.",
+    "level_note": "Trusted: Lean kernel; bbolt's transactional commit (validated by SIGKILL runs, process kill only - no power-loss simulation); fake cloud. The history theorem excludes the repaired defect 0103396 (a failing ADD keeping what it took), which is proved to break the invariant on a concrete witness; the other repaired defect 529efcf (a failing repeat ADD releasing an acknowledged address) is covered by a witness theorem.",
     "assumptions": _DW_ASSUME,
     "trusted_base": _DW_TRUST + ["bbolt (github.com/boltdb/bolt) commit/recovery"],
     "design_ref": "DESIGN.md §4 C05",
